@@ -879,25 +879,25 @@ val intermediateOption = {val_name}.option() ?: return null
                             OutType::Opaque(OpaquePath{tcx_id: id, ..}) => {
                                 let resolved = self.tcx.resolve_opaque(*id);
                                 if !resolved.attrs.custom_errors {
-                                    panic!("Opaque type {:?} must have the `error` attribute to be used as an error result", resolved.name);
+                                    self.errors.push_error(format!("Opaque type {:?} must have the `error` attribute to be used as an error result", resolved.name));
                                 }
                             },
                             OutType::Struct(ReturnableStructPath::Struct(path)) => {
                                 let resolved = self.tcx.resolve_struct(path.tcx_id);
                                 if !resolved.attrs.custom_errors {
-                                    panic!("Struct type {:?} must have the `error` attribute to be used as an error result", resolved.name);
+                                    self.errors.push_error(format!("Struct type {:?} must have the `error` attribute to be used as an error result", resolved.name));
                                 }
                             },
                             OutType::Struct(ReturnableStructPath::OutStruct(path)) => {
                                 let resolved = self.tcx.resolve_out_struct(path.tcx_id);
                                 if !resolved.attrs.custom_errors {
-                                    panic!("Struct type {:?} must have the `error` attribute to be used as an error result", resolved.name);
+                                    self.errors.push_error(format!("Struct type {:?} must have the `error` attribute to be used as an error result", resolved.name));
                                 }
                             }
                             Type::Enum(enm) => {
                                 let resolved = enm.resolve(self.tcx);
                                     if !resolved.attrs.custom_errors {
-                                        panic!("Struct type {:?} must have the `error` attribute to be used as an error result", resolved.name);
+                                        self.errors.push_error(format!("Struct type {:?} must have the `error` attribute to be used as an error result", resolved.name));
                                     }
                             }
                             _ => {}
@@ -1224,7 +1224,10 @@ returnVal.option() ?: return null
                     special_methods.iterator_type = Some(non_option_ty.into());
                     format!("internal fun nextInternal({params}): {return_ty}")
                 } else {
-                    panic!("Can only have one iterator method per opaque struct")
+                    self.errors.push_error(
+                        "Can only have one iterator method per opaque struct".into(),
+                    );
+                    format!("internal fun nextInternal({params}): {return_ty}")
                 }
             }
             Some(SpecialMethod::Indexer) => {
@@ -1247,7 +1250,10 @@ returnVal.option() ?: return null
                     });
                     format!("internal fun getInternal({params}): {return_ty}")
                 } else {
-                    panic!("Can only have one indexer method per opaque struct")
+                    self.errors.push_error(
+                        "Can only have one indexer method per opaque struct".into(),
+                    );
+                    format!("internal fun getInternal({params}): {return_ty}")
                 }
             }
             Some(SpecialMethod::Iterable) => {
@@ -1255,7 +1261,10 @@ returnVal.option() ?: return null
                     special_methods.iterable_type = Some(return_ty.to_string());
                     format!("override fun iterator(): {return_ty}")
                 } else {
-                    panic!("Can only have one iterable method per opaque struct")
+                    self.errors.push_error(
+                        "Can only have one iterable method per opaque struct".into(),
+                    );
+                    format!("override fun iterator(): {return_ty}")
                 }
             }
             Some(SpecialMethod::Stringifier) => {
@@ -1263,7 +1272,10 @@ returnVal.option() ?: return null
                     special_methods.has_stringifier = true;
                     "override fun toString(): String".to_string()
                 } else {
-                    panic!("Can only have one stringifier method per opaque struct")
+                    self.errors.push_error(
+                        "Can only have one stringifier method per opaque struct".into(),
+                    );
+                    "override fun toString(): String".to_string()
                 }
             }
             _ => {
